@@ -3,13 +3,13 @@ package keeper
 import (
 	"encoding/hex"
 
-	"github.com/ethereum/go-ethereum/crypto"
-	"github.com/palomachain/paloma/v2/zzverif/models"
 	sdkmath "cosmossdk.io/math"
 	sdk "github.com/cosmos/cosmos-sdk/types"
 	stakingtypes "github.com/cosmos/cosmos-sdk/x/staking/types"
+	"github.com/ethereum/go-ethereum/crypto"
 	"github.com/palomachain/paloma/v2/x/skyway/types"
 	valsettypes "github.com/palomachain/paloma/v2/x/valset/types"
+	"github.com/palomachain/paloma/v2/zzverif/models"
 	"github.com/palomachain/paloma/v2/zzverif/sym"
 )
 
